@@ -166,6 +166,8 @@ pub struct Alph {
     pub after_disconnect: bool,
     /// values the application may pass to set_pingresp_recv_timeout() at any time
     pub set_pingresp_to: Vec<u64>,
+    /// index of the first topic of `TOPICS` this configuration uses (`topics` many from there)
+    pub topic_base: usize,
     /// identifiers the application reserves itself (register_packet_id) for a publish instead of acquiring
     /// the lowest free one: exchanges with large identifier values (256, type maximum)
     pub pub_ids: Vec<u32>,
@@ -229,7 +231,9 @@ impl EpCfg {
     }
 }
 
-pub const TOPICS: [&[u8]; 3] = [b"a", b"bb", b"topic/long"];
+/// topics 0..2: short; 3 / 4: 123 and 124 bytes - a PUBLISH QoS 0 on them with the one-byte payload and (v5.0) an
+/// empty property block has a 127- / 128-byte body, i.e. the last one-byte and the first two-byte Remaining Length
+pub const TOPICS: [&[u8]; 5] = [b"a", b"bb", b"topic/long", &[b't'; 123], &[b't'; 124]];
 pub const PAYLOAD: &[u8] = b"p";
 
 // ------------------------------------------------------------------------------------------
@@ -955,7 +959,7 @@ impl<P: Pid> World for Ep<P> {
             if al.pub_any_status && version_known && m.exchanges() < c.window {
                 for &q in &al.pub_q {
                     if q > 0 {
-                        for t in 0..al.topics.max(1) {
+                        for t in al.topic_base..al.topic_base + al.topics.max(1) {
                             for &a in &al.als {
                                 if matches!(a, Al::No) || (matches!(a, Al::Reg(_)) && self.v5()) {
                                     v.push(Act::Pub { q, t: t as u8, al: a, fail: false });
@@ -971,7 +975,7 @@ impl<P: Pid> World for Ep<P> {
         if local_ok && m.exchanges() < c.window {
             for &q in &al.pub_q {
                 if q > 0 || m.st == St::Connected {
-                    for t in 0..al.topics.max(1) {
+                    for t in al.topic_base..al.topic_base + al.topics.max(1) {
                         for &a in &al.als {
                             // contract: empty topic + alias only after an accepted registration on this connection
                             let ok = match a {
@@ -1099,12 +1103,12 @@ impl<P: Pid> World for Ep<P> {
             for &q in &al.peer_pub_q {
                 let ids: Vec<u32> = if q == 0 { vec![0] } else { al.peer_ids.clone() };
                 for id in ids {
-                    for t in 0..al.topics.max(1) {
+                    for t in al.topic_base..al.topic_base + al.topics.max(1) {
                         for &a in if al.peer_als.is_empty() { &[Al::No][..] } else { &al.peer_als[..] } {
                             if a != Al::No && !self.v5() {
                                 continue;
                             }
-                            if matches!(a, Al::Use(_)) && t > 0 {
+                            if matches!(a, Al::Use(_)) && t > al.topic_base {
                                 continue;
                             }
                             for dup in if al.peer_dup && q > 0 { vec![false, true] } else { vec![false] } {
